@@ -9,6 +9,12 @@ import time
 
 REPO = "/repo"
 VERIF = os.path.dirname(os.path.dirname(os.path.abspath(__file__)))
+RESDIR = VERIF
+if os.environ.get("SENS_SCRATCH"):
+    # run against the scratch copies made by tools/scratch.sh (leaves /repo alone)
+    REPO = "/tmp/rscratch"
+    VERIF = "/tmp/vscratch"
+    os.environ["TZSIM_REPO"] = REPO
 TZ = "src/timezone/mod.rs"
 TF = "src/parse/tz_file.rs"
 FD = "src/datetime/find.rs"
@@ -305,6 +311,20 @@ mut("c08_v1_trailing_ok", "C08", [(TF, """            if !cursor.is_empty() {
                 return Err(TzError::TzFile(TzFileError::RemainingDataV1));
             }
 """, "")], "trailing bytes after a v1 body accepted")
+mut("c08_trans_cap_65535", "C08", [(TF, "    if !(type_count != 0 && char_count != 0 &&", "    if transition_count > 0xFFFF {\n        return Err(TzFileError::InvalidHeader);\n    }\n    if !(type_count != 0 && char_count != 0 &&")], "more than 65535 transitions refused as hostile")
+mut("c08_char_count_u16", "C08", [(TF, "        char_count: char_count as usize,", "        char_count: char_count as u16 as usize,")], "character count kept in 16 bits")
+mut("c08_leap_cap", "C08", [(TF, "        leap_count: leap_count as usize,", "        leap_count: (leap_count as usize).min(50_000),")], "leap record count capped")
+mut("c08_signed_time_plain", "C08", [("src/parse/tz_string.rs", """        if use_string_extensions {
+            parse_rule_time_extended(cursor)?
+        } else {
+            parse_rule_time(cursor)?
+        }""", """        {
+            let time = parse_rule_time_extended(cursor)?;
+            if !use_string_extensions && !(0..=24 * 3600 + 59 * 60 + 59).contains(&time) {
+                return Err(TzStringError::InvalidDayTimeHour.into());
+            }
+            time
+        }""")], "explicitly signed rule time accepted in a version-2 footer", )
 mut("c08_ext_for_v2", "C08", [(TF, "parse_footer(footer, header.version == Version::V3)", "parse_footer(footer, header.version != Version::V1)")], "footer extensions honoured for version 2")
 mut("c08_pair_check_dropped", "C08", [(TF, "if !matches!((std_wall, ut_local), (0, 0) | (1, 0) | (1, 1)) {", "if !matches!((std_wall, ut_local), (0, 0) | (1, 0) | (1, 1) | (0, 1)) {")], "indicator pair (0,1) accepted")
 mut("c08_footer_nl_unchecked", "C08", [(TF, "if !(footer.len() >= 2 && footer.starts_with('\\n') && footer.ends_with('\\n')) {", "if !(footer.len() >= 2 && footer.starts_with('\\n')) {")], "missing final newline accepted")
@@ -410,7 +430,7 @@ def main():
     names = sys.argv[1:]
     todo = [m for m in M if not names or m["name"] in names or m["prop"] in names]
     results = {}
-    respath = os.path.join(VERIF, "sensitivity", "results.json")
+    respath = os.path.join(RESDIR, "sensitivity", "results.json")
     os.makedirs(os.path.dirname(respath), exist_ok=True)
     if os.path.exists(respath):
         results = json.load(open(respath))
